@@ -61,7 +61,7 @@ func runC13(c *Ctx) {
 	p, r := c.P, c.R
 	r.Explanation = "C13 UUID/GUID forms, decided statically by abstract interpretation of go/ssa over the bit-lane domain (internal/absint on internal/lanes): integers are lane vectors (0, 1, a named bit of a symbolic source, ⊤), buffers and struct fields are trees of lanes, strings are sequences of literal bytes and hexadecimal digits whose 4 value bits are lanes; branches decided by constant lanes (counted loops over literal bounds) are followed, a branch on symbolic data is followed only away from a block that returns a non-nil error (the success path) and recorded; anything not modelled aborts the run ⇒ Undecided. No Manticore code is executed. " +
 		"R1-raw-layout: (*GUID).ToBytes maps every GUID field bit to the wire bit MS-DTYP 2.3.4.2 prescribes (A bytes 0–3 LE, B 4–5 LE, C 6–7 LE, D 8–9 BE, E 10–15 BE; output exactly 16 bytes), (*GUID).FromRawBytes reads exactly the same lanes (so the two are mutual inverses on the 128 bits), E bits 48..63 are never written and are read back as 0 (reported as the codec's domain restriction); ms_dtyp GUID is the same type. " +
-		"R2-format-regex: for N, D, B, P, X the abstract output of ToFormat* (Sprintf verbs %0Nx, %s of sub-strings of an inner Sprintf, literals) has a fixed shape that equals GUID_FORMAT_*_REGEX position by position (literal ↔ literal, digit ↔ [0-9a-f]); every digit carries 4 bits of a GUID field and the 32 digits carry each of the 128 bits exactly once; verb width·4 = bit width of the argument except for the 48-bit E (frozen exception: the only tolerated sprintf-width restriction is E bits 48..63 = 0); every regexp pattern FromString matches before calling FromFormat* equals the GUID_FORMAT_*_REGEX constant of that format (by constant value). " +
+		"R2-format-regex: for N, D, B, P, X the abstract output of ToFormat* (Sprintf verbs %0Nx, %s of sub-strings of an inner Sprintf, literals) has a fixed shape that equals GUID_FORMAT_*_REGEX position by position (literal ↔ literal, digit ↔ [0-9a-f]); every digit carries 4 bits of a GUID field and the 32 digits carry each of the 128 bits exactly once; verb width·4 = bit width of the argument except for the 48-bit E (frozen exception: the only tolerated sprintf-width restriction is E bits 48..63 = 0); every regexp pattern FromString matches before calling FromFormat* equals the GUID_FORMAT_*_REGEX constant of that format (by constant value) — read off the `matched := regexp.MatchString(…); if matched { return FromFormatF(…) }` blocks and, independently of how the dispatcher is written (a loop over a read-only table of {pattern, parser}, a switch, pre-compiled patterns), from the interpretation of FromString on a string of each shape: the match that succeeds before the parser is called uses the constant's value and the parser called is that format's. " +
 		"R3-parser-slicing: each FromFormat* is interpreted on a symbolic string of the shape of its regex constant: it accepts every such string (no error return, no ParseUint range restriction), every digit of the input is parsed by exactly one ParseUint call, the value ranges ParseUint admits for the elements that feed a field (its bit size, or 4·digits when the element is cut by a constant-bounds slice and so has that many digits on every input) add up to the field's declared width (E: 48 or 64), so a direct caller's over-long element is refused rather than silently truncated by the narrowing conversion, and the bit map string→fields is exactly the inverse of the ToFormat* bit map fields→string (field by field; E bits 48..63 = 0); the same holds for FromString on each of the five shapes (dispatch + parser). " +
 		"R4-normalise: in FromString and FromFormatN/D/B/P/X the raw parameter reaches nothing but strings.TrimSpace/strings.ToLower (directly or through an in-module helper that only normalises); all other consumers see one and the same value (validated value = parsed value), and wherever a regexp is matched that value has passed through both TrimSpace and ToLower (the patterns accept lower case only). " +
 		"R5-uuid-bitmaps: (*UUID).Marshal/Unmarshal are mutually inverse bit maps between {Version[3..0], Variant[3..0], Data[15×8]} and the 128 wire bits, every wire bit is a field bit, no wire bit is used twice, version nibble = high nibble of byte 6 and variant nibble = high nibble of byte 8 (RFC 4122 §4.1.3 position); UUIDv1/UUIDv2/UUIDv8 Marshal/Unmarshal are mutually inverse bit maps between their own fields and the 120 bits of the embedded UUID.Data, the version constant written equals the one Unmarshal demands and the type's number; field bits that are not carried (Version/Variant 4..7, Time 60..63, ClockSeq 12..15, v2 Time 0..31, Clock 4..7) are listed as the codec's domain restriction and must be read back as 0; String() of each type prints the 16 marshalled bytes in order as 8-4-4-4-12 lower-case hex, FromString hands exactly those 16 bytes to Unmarshal. " +
